@@ -94,6 +94,41 @@ func (w *World) DoErr(st *Step) bool {
 			}
 		}
 		w.Core.AddErrorList(list)
+	case "errBurst":
+		// many errors at once: A 0 table.AddError xN, 1 table.AddErrorList(N), 2 container B AddErrorList(N); N = C
+		n := pick(2500, st.C)
+		list := make([]error, n)
+		switch pick(3, st.A) {
+		case 0:
+			for range list {
+				e := w.newErr("table")
+				w.expect(e, nil)
+				w.Tab.AddError(e)
+			}
+			w.Faults["table_error"] += n
+		case 1:
+			for i := range list {
+				list[i] = w.newErr("table")
+				w.expect(list[i], nil)
+			}
+			w.Core.AddErrorList(list)
+			w.Faults["table_error"] += n
+		default:
+			i := pick(len(w.ecs), st.B)
+			if i < 0 || w.ecs[i].isNil {
+				return true
+			}
+			for j := range list {
+				list[j] = w.newErr(fmt.Sprintf("ec#%d", i))
+			}
+			w.ecs[i].real.AddErrorList(list)
+			w.ecs[i].want = append(w.ecs[i].want, list...)
+			w.Faults["container_error"] += n
+		}
+		w.probe("error_burst")
+		if n > 1000 {
+			w.probe("error_burst_over_1000")
+		}
 	case "ecNew":
 		m := &ecModel{}
 		switch pick(3, st.A) {
